@@ -54,6 +54,7 @@ func c19(c *Ctx) {
 	c.Assume("listener back ends bind exactly the addresses passed to AddAddress (not analysed)")
 	c19ToAddr(c)
 	c19Run(c)
+	c19RangedListUntouched(c)
 	// "a connection to a listened port can reach only the services listed for that entry"
 	if find := c.P.Method("server", "Honeytrap", "findService"); c.Anchor(find != nil, "entry-services-only", "(*server.Honeytrap).findService") {
 		c08Candidates(c, "entry-services-only", find)
@@ -940,4 +941,59 @@ func isConvOfExtract(v ssa.Value, tuple ssa.Value, idx int) bool {
 func isSliceOfString(t types.Type) bool {
 	sl, ok := t.Underlying().(*types.Slice)
 	return ok && types.Identical(sl.Elem().Underlying(), types.Typ[types.String])
+}
+
+// c19RangedListUntouched: the port table is filled by walking the configured lists (port strings, service names). A
+// `for … range x.F` loop evaluates x.F once; a store to the same field inside the loop (deleting or inserting an element
+// in place) shifts the backing array under the running loop: the element after a deleted one is skipped and the last one
+// is visited twice. For a services list that means a configured service is missing from the port's entry and another is
+// entered twice – exactly for lists with an unknown name in front.
+func c19RangedListUntouched(c *Ctx) {
+	p := c.P
+	const rule = "ranged-list-untouched"
+	n := 0
+	for _, fn := range p.FuncsIn("server") {
+		if fn.Blocks == nil || strings.HasSuffix(p.Fset.Position(fn.Pos()).Filename, "_test.go") {
+			continue
+		}
+		for _, l := range Loops(fn) {
+			// the ranged value: len(X) evaluated before the loop and X indexed by the loop's counter, X loaded from a field
+			var ranged *ssa.FieldAddr
+			for b := range l.Blocks {
+				for _, in := range b.Instrs {
+					ia, ok := in.(*ssa.IndexAddr)
+					if !ok || !isAscendingIndex(ia.Index) {
+						continue
+					}
+					ld, ok := ia.X.(*ssa.UnOp)
+					if !ok || ld.Op != token.MUL || l.Blocks[ld.Block()] {
+						continue // the slice is loaded inside the loop: re-evaluated every iteration
+					}
+					if fa, ok := ld.X.(*ssa.FieldAddr); ok {
+						ranged = fa
+					}
+				}
+			}
+			if ranged == nil {
+				continue
+			}
+			n++
+			key := fmt.Sprintf("%s: range over %s", shortFn(fn), RenderN(ranged, 2))
+			bad := ""
+			for b := range l.Blocks {
+				for _, in := range b.Instrs {
+					st, ok := in.(*ssa.Store)
+					if !ok {
+						continue
+					}
+					fa, ok := st.Addr.(*ssa.FieldAddr)
+					if ok && fa.Field == ranged.Field && Render(fa.X) == Render(ranged.X) {
+						bad = p.InstrPos(st)
+					}
+				}
+			}
+			c.Check(bad == "", rule, key, p.Pos(l.Header.Instrs[0].Pos()), "the list is not assigned while it is being walked", "the loop walks a list it assigns inside its body ("+bad+"): the range keeps the old length and backing array, so after an in-place deletion the next element is skipped and the last one is visited twice – a configured name is left out of the entry and another is entered twice")
+		}
+	}
+	c.Floor(rule, 2, "loops of Run over the configured port and service lists")
 }
